@@ -225,6 +225,14 @@ func enumerateWrites(f *ssa.Function) []write {
 					t = mi.X
 				}
 				out = append(out, write{fn: f, in: in, kind: "sort-in-place", target: t})
+			default:
+				// the generic library forms that permute, shift or zero the elements of the slice they are handed
+				if pk, fn := core.StdCallee(x.Common().StaticCallee()); pk == "slices" && len(x.Common().Args) > 0 {
+					switch fn {
+					case "Sort", "SortFunc", "SortStableFunc", "Reverse", "Insert", "Delete", "DeleteFunc", "Compact", "CompactFunc", "Replace":
+						out = append(out, write{fn: f, in: in, kind: "sort-in-place", target: x.Common().Args[0]})
+					}
+				}
 			}
 		}
 	})
